@@ -359,7 +359,8 @@ type c05TakeoverObs struct {
 // c05TakeoverBody: optional stored offline session, then n connections send CONNECT
 // for the same client id concurrently (one harness thread each); afterwards every
 // connection pings and a helper publishes.
-func c05TakeoverBody(obs *c05TakeoverObs, n int, offlineSession bool, clean bool) func() {
+func c05TakeoverBody(obs *c05TakeoverObs, n int, offlineSession bool, clean bool, onlineOld ...bool) func() {
+	online := len(onlineOld) > 0 && onlineOld[0]
 	return func() {
 		*obs = c05TakeoverObs{}
 		bad := func(rule, class, detail string) { obs.problems = append(obs.problems, [3]string{rule, class, detail}) }
@@ -379,8 +380,21 @@ func c05TakeoverBody(obs *c05TakeoverObs, n int, offlineSession bool, clean bool
 			cls[i] = w.Dial(fmt.Sprintf("X%d", i+1))
 			cls[i].Version, cls[i].ID = refmqtt.V5, "c"
 		}
+		var oldStamp int64
+		if online {
+			// an older connection of the client id is attached and stays; it is displaced too
+			x := w.Dial("X0")
+			x.Connect(harness.ConnectOpts{ClientID: "c", Clean: true, Version: refmqtt.V5, Props: props()})
+			if len(x.Inbox) > 0 {
+				oldStamp = x.Inbox[0].Stamp
+			}
+			cls = append([]*harness.Client{x}, cls...)
+		}
 		for i := range cls {
 			i := i
+			if online && i == 0 {
+				continue
+			}
 			vsched.Go(fmt.Sprintf("client%d", i+1), func() {
 				cls[i].Send(harness.ConnectPacket(harness.ConnectOpts{ClientID: "c", Clean: clean, Version: refmqtt.V5, Props: props()}))
 			})
@@ -391,7 +405,10 @@ func c05TakeoverBody(obs *c05TakeoverObs, n int, offlineSession bool, clean bool
 			connack int64
 			closed  int64
 		}
-		sts := make([]st, n)
+		sts := make([]st, len(cls))
+		if online {
+			sts[0].connack = oldStamp
+		}
 		attached := 0
 		for i, x := range cls {
 			for _, r := range x.Recv() {
@@ -580,6 +597,11 @@ func c05Takeover(c *explore.Ctx) {
 		n       int
 		offline bool
 		clean   bool
+	}
+	{
+		obs := &c05TakeoverObs{}
+		name := "takeover-of-an-online-client-by-two-connections"
+		schedScenario(c, name, bound, func() [][3]string { return obs.problems }, func() string { return obs.outcome }, c05TakeoverBody(obs, 2, false, true, true), map[string]any{"connections": 2, "online_old_client": true, "clean_start": true})
 	}
 	scs := []sc{{2, false, true}, {2, true, false}, {2, true, true}}
 	if !c.Quick() {
